@@ -92,12 +92,21 @@ package mbapp
 //@     assert sumlen(lens(arg3.m), len(arg3.m)) <= s.mtu && arg3.m == msg && !arg3.isAsk && !arg3.isReply
 //@     set sending = true
 //@
+// peerlen / peerchar: the text a peer address prints as (String() of the address type is a
+// function of the address; uninterpreted)
+//@ spec func peerlen(a iface) int
+//@ spec func peerchar(a iface, j int) int
+
 //@ func (*Swarm).Ask
 //@   noframe
 //@   fnspec Deadline:
 //@     pure
 //@   fnspec String:
 //@     pure
+//@     ensures len(res0) == peerlen(arg0) && (forall j :: 0 <= j && j < len(res0) ==> res0[j] == peerchar(arg0, j))
+//@   before call (*asker).createAsk:
+//@     assert [keyedbypeer] len(arg1.Addr) == peerlen(dst) && (forall j :: 0 <= j && j < len(arg1.Addr) ==> arg1.Addr[j] == peerchar(dst, j))
+//@     assert [keyedbyid] arg1.GroupID.Counter == counter && arg1.GroupID.OriginTime == originTime && arg2 == resp
 //@   ghostvar m = 0 - 1
 //@   ghostvar sending = false
 //@   ensures old(sumlen(lens(req), len(req)) > s.mtu) ==> ret1 != nil
@@ -163,3 +172,16 @@ package mbapp
 //@   ensures [hubsclosed] closed(old(s.tells.closed)) && closed(old(s.asks.closed))
 //@   fnspec Close:
 //@     preserves s.tells.closed, s.asks.closed, closed(s.tells.closed), closed(s.asks.closed)
+
+// a reply completes only the ask registered under the replying peer's address and the reply's id
+//@ func (*Swarm).handleAskReply
+//@   noframe
+//@   requires s != nil && s.asker != nil
+//@   fnspec String:
+//@     pure
+//@     ensures len(res0) == peerlen(arg0) && (forall j :: 0 <= j && j < len(res0) ==> res0[j] == peerchar(arg0, j))
+//@   before call (*asker).getAndRemoveAsk:
+//@     assert [frompeer] len(arg1.Addr) == peerlen(src) && (forall j :: 0 <= j && j < len(arg1.Addr) ==> arg1.Addr[j] == peerchar(src, j))
+//@     assert [sameid] arg1.GroupID == id
+//@   before call (*ask).complete:
+//@     assert [body] arg1 == body && arg2 == errCode
